@@ -293,4 +293,50 @@ theorem genFold_spec (o : Loc) : ∀ (vals : List Int) (s : St) (d : List Nat) (
       rw [i4 l (by rw [hsz]; omega) hne, hframe l hl hne]
     · rw [i5, h1]
 
+/-! ### array arithmetic: the shape guards of C12 on extent lists, the cells of an element-wise result -/
+
+theorem canAdd_extDv (d1 d2 : List Nat) : Idx.canAdd (extDv d1) (extDv d2) = true ↔ d1 = d2 := by
+  rw [(Idx.shape_conformance (extDv d1) (extDv d2)).1]
+  simp only [extDv, List.length_map, List.getElem_map]
+  constructor
+  · rintro ⟨hl, h⟩
+    apply List.ext_getElem hl
+    intro k h1 h2
+    exact h k h1 h2
+  · rintro rfl
+    exact ⟨rfl, fun _ _ _ => rfl⟩
+
+theorem canMult_extDv (d1 d2 : List Nat) :
+    Idx.canMult (extDv d1) (extDv d2) = true ↔ ∃ r1 c1 c2, d1 = [r1, c1] ∧ d2 = [c1, c2] := by
+  rw [(Idx.shape_conformance (extDv d1) (extDv d2)).2]
+  constructor
+  · rintro ⟨rows1, m1, cols1, m2, rows2, m3, cols2, m4, h1, h2, rfl⟩
+    refine ⟨rows1, cols1, cols2, ?_, ?_⟩
+    · match d1, h1 with
+      | [a, b], h => simp [extDv] at h; obtain ⟨⟨rfl, _⟩, rfl, _⟩ := h; rfl
+    · match d2, h2 with
+      | [a, b], h => simp [extDv] at h; obtain ⟨⟨rfl, _⟩, rfl, _⟩ := h; rfl
+  · rintro ⟨r1, c1, c2, rfl, rfl⟩
+    exact ⟨r1, 1, c1, 1, c1, 1, c2, 1, rfl, rfl, rfl⟩
+
+/-- element results that are all values become consecutive fresh cells holding them, in order -/
+theorem allocRes_vals : ∀ (vs : List Val) (s : St),
+    allocRes (vs.map OpRes.val) s =
+      .ok ((List.range vs.length).map (fun k => s.mem.size + k)) { s with mem := s.mem ++ vs.toArray }
+  | [], s => by simp [allocRes, pure, M.pure]
+  | v :: vs, s => by
+    have ih := allocRes_vals vs { s with mem := s.mem.push v }
+    simp only [List.map_cons, allocRes, liftOp, bind_eq, M.bind, pure, M.pure, alloc, ih, List.length_cons]
+    congr 1
+    · rw [List.range_succ_eq_map]
+      simp only [List.map_cons, List.map_map, Nat.add_zero, Array.size_push]
+      congr 1
+      apply List.map_congr_left
+      intro k _
+      show s.mem.size + 1 + k = s.mem.size + (k + 1)
+      omega
+    · congr 1
+      apply Array.ext'
+      simp
+
 end Never.Src
